@@ -45,6 +45,9 @@ func (f *FactView) Truth(v *Val) (bool, bool) { return f.S.truthKnown(v) }
 // Nil fact of a value.
 func (f *FactView) Nil(v *Val) (bool, bool) { return f.S.nilKnown(v) }
 
+// Events lists the events of the state so far.
+func (f *FactView) Events() []*Event { return f.S.Events }
+
 // PureCalls lists memoised pure-call values created so far.
 func (f *FactView) PureCalls() []*Val { return f.E.pureList }
 
@@ -1042,4 +1045,9 @@ func (e *Engine) execGo(st *State, s *ast.GoStmt) []*State {
 		out = append(out, c.st)
 	}
 	return out
+}
+
+// IntConst returns the interned abstract value of an integer constant.
+func (e *Engine) IntConst(n int64) *Val {
+	return e.constVal(constant.MakeInt64(n), types.Typ[types.UntypedInt])
 }
